@@ -2,14 +2,16 @@
    (content tables, raw modules lowered by the regenerated dispatch tables, ...) and hands everything else to
    [run_C01] of Model/C01_visitor.v. *)
 From Coq Require Import List ZArith String Ascii Bool Arith.
-From Verif Require Import Lib.Sexp Model.C01_base Gen.C01_tables Gen.C01_dispatch Model.C01_visitor Model.C01_content Model.C01_raw Model.C01_layout.
+From Verif Require Import Lib.Sexp Model.C01_base Gen.C01_tables Gen.C01_dispatch Model.C01_visitor Model.C01_content Model.C01_raw Model.C01_layout Model.C01_resolve Model.C01_ext.
 Import ListNotations.
 Open Scope string_scope.
 Open Scope list_scope.
 Open Scope nat_scope.
 
 (* one module given as statements: machine result, level semantics, declarative bindings, declarative tables *)
-Definition run_views (mname : string) (b : list stmt) : sexp :=
+Definition run_views (mname : string) (b0 : list stmt) : sexp :=
+  (* decorator spellings still given as references are first resolved in scope (Model/C01_resolve.v) *)
+  let b := resolve_module mname b0 in
   let bs := level_bindings_list InModule mname false PScope b in
   let names := first_names [] bs in
   SList [enc_result (run_visit mname b);
@@ -46,6 +48,20 @@ Definition run_C01_all (s : sexp) : sexp :=
   | SList [SStr "dedent"; ls] =>
       (* Object.source of an object whose lines are ls *)
       match as_list_of as_str ls with Some l => SList (map SStr (dedent l)) | None => bad_input end
+  | SList [SStr "ext-history"; c0; ops] =>
+      (* one extension container: initial extensions, then registrations and visits (raw modules); per visit, what each
+         extension that ever appears receives (theorem C01_history_announces_to_registered) *)
+      let dec_op := fun o => match o with
+        | SList [SStr "add"; e] => do e' <- as_nat e; Some (HAdd e')
+        | SList [SStr "visit"; SStr m; rb] =>
+            do rb' <- dec_rbody rb; do b <- lower_module rb'; Some (HVisit m (resolve_module m b))
+        | _ => None end in
+      match as_list_of as_nat c0, as_list_of dec_op ops with
+      | Some c, Some h =>
+          let ids := c ++ adds h in
+          SList (map (fun log => SList (map (fun e => SList [of_nat e; SList (map enc_event (received e log))]) ids))
+                     (run_history c h))
+      | _, _ => bad_input end
   | SList [SStr "doc-labels"] =>
       (* the documented decorator table of theorem C01_decorator_labels_documented *)
       SList (map (fun p => SList [SStr p; enc_strs (doc_labels p)]) doc_paths)
